@@ -57,3 +57,8 @@ Lemma gen_docs_consistent :
   gen_doc_header_unary < gen_doc_header_postfix /\
   forallb (fun l => l <? gen_doc_book_unary) gen_doc_book = true.
 Proof. vm_compute. repeat split; reflexivity. Qed.
+
+(* the optional query cache cannot change an answer: its key is the statement text itself and every
+   write statement (successful or failed) drops it *)
+Lemma gen_cache_transparent : gen_cache_key_is_text = true /\ gen_cache_invalidation_unconditional = true.
+Proof. vm_compute. split; reflexivity. Qed.
